@@ -393,13 +393,16 @@ def run_case(case, ctx):
         fit = 1 - np.sqrt(R2) / normX
         ftol = tolR / (2 * max(np.sqrt(R2), 1e-300) * normX) + 1e-12
         ctx.check(abs(out["fit"] - fit) <= ftol, "tucker_als", "WRONG-FIT", f"reported fit {out['fit']!r} vs recomputed {fit!r}")
-        ctx.check(out["iters"] + 1 <= case["maxiters"], "tucker_als", "ITERS", f"iters {out['iters']} maxiters {case['maxiters']}")
+        ctx.check(out["iters"] <= case["maxiters"], "tucker_als", "ITERS", f"iters {out['iters']} maxiters {case['maxiters']}")
         # monotone fit inside this run, reconstructed from the proxy's projection log: the factor list passed at the first projection of
         # sweep s+1 is the model after sweep s
         order = list(range(N)) if do is None else [int(d) for d in do]
-        ctx.check(len(log) == (out["iters"] + 1) * N, "tucker_als", "CALL-COUNT", f"{len(log)} projections for {out['iters'] + 1} sweeps of {N} modes")
+        # (sweeps counted from the projection log; the reported count may number them from 0 or from 1)
+        nsweeps = len(log) // N
+        ctx.check(len(log) == nsweeps * N and 1 <= nsweeps <= case["maxiters"] and out["iters"] in (nsweeps - 1, nsweeps), "tucker_als", "ITERS",
+                  f"{len(log)} projections over {N} modes, reported iters {out['iters']}, maxiters {case['maxiters']}")
         energies = []
-        for s in range(1, out["iters"] + 1):
+        for s in range(1, nsweeps):
             n0, U = log[s * N]
             if any(u is None for k, u in enumerate(U)):
                 continue
